@@ -33,7 +33,9 @@ META = {
             "deallocated before it was marked; C09_outdated_cases / C09_outdated_iff_not_descendant; "
             "C09_tips_kept_except_dirty_forks (the tip erasure keeps every descendant of the final block unless an "
             "outdated tip has an unsaved block on its branch) with C09_tips_dirty_fork_erased_refuted for that "
-            "exception (known finding tips-dirty-fork-erased); C09_finalize_transparent_partial - every block "
+            "exception (known finding tips-dirty-fork-erased); C09_preserved_window (every active-chain block at or above "
+            "max(old root, final - preserve) is retained unchanged and stays on the chain); "
+            "C09_finalize_transparent_partial - every block "
             "that descends from the new root and is not under a sibling of the final block survives with the same "
             "height, payload ids, dirty bit and parent. PARTIAL: POP command execution (keystone context, SP context) "
             "is outside the model, and on the real library transparency does NOT follow from the asserted relation "
